@@ -37,6 +37,13 @@ def gen_regression_data(rng, d):
     npr = np.random.RandomState(rng.randrange(2 ** 31))
     m = rng.choice([10, 25, 60, 120, 200])
     X = npr.uniform(-2, 3, size=(m, d)) * npr.uniform(0.5, 4, size=(1, d))
+    if rng.random() < 0.3:
+        # quantised inputs: after the default scaling to [0.05, 0.95] many coordinates sit exactly on grid lines k/2^l
+        # (data range pinned to [0, 0.9]^d so that the affine map is x + 0.05)
+        q = npr.randint(0, 17, size=(m, d))
+        X = np.where(npr.rand(m, d) < 0.6, (q / 16.0 - 0.05) , npr.uniform(0.0, 0.9, size=(m, d)))
+        X = np.clip(X, 0.0, 0.9)
+        X[0, :], X[1, :] = 0.0, 0.9
     kind = rng.choice(["smooth", "noisy", "linear", "constant"])
     if kind == "constant":
         y = np.full(m, 1.5)
@@ -185,11 +192,26 @@ def run_train(case, res, adaptive=False):
         res.hash = digest(cfg)
         return
     with contextlib.redirect_stdout(io.StringIO()):
+        if rng.random() < 0.4:
+            # the same Regression object was trained before on another hold-out share / level range / lambda
+            p0 = rng.choice([0.1, 0.3, 0.5])
+            l0 = rng.choice([1, 2])
+            reg.regularization = rng.choice([lam, 1e-3, 0.5])
+            if adaptive and rng.random() < 0.5:
+                reg.train_spatially_adaptive(p0, 0.9, -1.0, 10, False, False)
+            else:
+                reg.train(p0, l0, l0 + rng.choice([0, 1, 2]) if d < 3 else l0 + 1, False)
+            reg.regularization = lam
+            res.count("retrained_object")
+            cfg["retrained"] = True
         if adaptive:
             combi = reg.train_spatially_adaptive(0.2, rng.choice([0.5, 0.9]), -1.0, rng.choice([10, 30, 60]), False, False)
         else:
             combi = reg.train(0.2, lmin, lmax, False)
     T = np.asarray(reg.training_data, dtype=float)
+    ties = int(np.sum(np.isin(T, np.arange(1, 16) / 16.0)))
+    if ties:
+        res.count("training_coordinates_on_grid_lines", ties)
     yv = np.asarray(reg.training_target_values, dtype=float)
     ngr = 0
     for g in combi.scheme:
